@@ -270,5 +270,23 @@ def stepOp (b : SBag) : Op → Option SBag × String
     | r0 :: rest =>
       (some { b with rows := r0 :: rest.map fun r =>
         (r.1, r.2.zipIdx.map fun (c, i) => if c == POINT then (r0.2[i]?).getD c else c) }, "ok")
+  | .mask refseq start len mr nogap noref =>
+    -- the row-level function of property C15 on the plain rows (the reference sequence is the first row of that name,
+    -- the length is the rows' length): `C15.mask_cells` - a residue changes exactly when it lies in the window
+    -- `[start, start+len)` and is not protected (a gap with `nogap`, the reference's residue with `noref`), and then
+    -- becomes the replacement character; `C15.mask_ok_iff` - an error (nothing changes) exactly for a start outside
+    -- `[0, L]`, an unknown replacement, a reference that is asked for and absent
+    if !b.isAlign then (some b, "na") else
+    match Gv.Model.mask b.rows b.length b.alphabet refseq start len mr nogap noref with
+    | none => (some b, "err")
+    | some rows => (some { b with rows := rows }, "ok")
+  | .maskOcc refseq maxOcc mr =>
+    -- likewise `MaskOccurences` (`MaskUnique`: `maxOcc = 1`): `C15.maskOcc_cells` - residue `i` of a row becomes the
+    -- column's replacement character exactly when it is selected (`Spec.occSelected`: counted, not a gap, at most
+    -- `maxOcc` occurrences among the counted residues of the column); `C15.maskOcc_ok_iff` for the errors
+    if !b.isAlign then (some b, "na") else
+    match Gv.Model.maskOccurences b.rows b.length b.alphabet refseq maxOcc mr with
+    | none => (some b, "err")
+    | some rows => (some { b with rows := rows }, "ok")
 
 end Gv.Spec
